@@ -8,7 +8,7 @@ dynamic-wind / with-handler / reset-shift are Scheme library code and are not an
 """
 import re
 
-from . import lib
+from . import lib, sexp, facts as factsmod
 from .lib import CheckError
 
 POP = r"alloc::vec::\{impl Vec<T,A>\}::pop$"
@@ -112,6 +112,9 @@ def run(F, R, ctx):
                    "open" % fn.short(), fn.loc(fn.blocks[p]["line"]), sample=True)
     R.floor("C08.d", "error-unwind loops", nloops, 2)
 
+    reinstate_rule(F, R)
+    wind_rules(F, R)
+
     # close_marks itself must upgrade the weak mark and close it
     cm = F.one(r"^steel::steel_vm::vm::\{impl Continuation\}::close_marks$")
     reads = any(e[1] == "StackFrameAttachments" and e[2] == "weak_continuation_mark" for _, e in lib.family_events(F, cm, "fld"))
@@ -164,3 +167,218 @@ def run(F, R, ctx):
                bool(errp) and all(p in okp for p in errp),
                "%s pushes the error value for the handler without first truncating the operand stack to the unwound "
                "frame's stack pointer" % fn.short(), fn.loc(), sample={"error_pushes": len(errp), "truncates": len(truncs)})
+
+
+def reinstate_rule(F, R):
+    R.rule("C08.e", "Continuation::set_state_from_continuation, on finding the frame that carries the invoked open mark "
+                    "(ptr_eq), drops that frame; it may leave the mark open only when nobody else holds the continuation: "
+                    "every branch that decides between closing the mark (close_marks) and reinstating from the open mark "
+                    "tests only Arc::strong_count of the continuation (or the result of close_marks itself)")
+    fn = F.one(r"^steel::steel_vm::vm::\{impl Continuation\}::set_state_from_continuation$")
+    pe = fn.call_blocks(r"::ptr_eq$")
+    if len(pe) != 1:
+        raise CheckError("anchor lost: set_state_from_continuation no longer identifies the frame by one ptr_eq (%d)" % len(pe))
+    t, f = lib.bool_branch(fn, pe[0])
+    if t is None:
+        raise CheckError("anchor lost: ptr_eq result is not branched on in set_state_from_continuation")
+    region = fn.reachable_from([t], avoid=[f] if f is not None else [])
+    closes = [c for c in fn.call_blocks(CLOSE) if c in region]
+    R.inst("C08.e", "set_state_from_continuation / matched frame: a close of the mark exists", bool(closes),
+           "Continuation::set_state_from_continuation drops the frame that carries the invoked continuation's open mark and "
+           "never closes the mark: any other holder of that continuation is left with an open mark whose frame is gone "
+           "(host panic 'Failed to find an open continuation on the stack' on the next invocation)", fn.loc(), sample=True)
+    if not closes:
+        return
+    sc = fn.call_blocks(r"::strong_count$")
+    if not sc:
+        R.inst("C08.e", "set_state_from_continuation / close decided by strong_count", False,
+               "set_state_from_continuation no longer consults Arc::strong_count of the continuation", fn.loc())
+        return
+    seeds = []
+    for c in sc + closes:
+        d = re.match(r"_\d+", fn.blocks[c].get("dest") or "")
+        if d:
+            seeds.append(d.group(0))
+    ok_taint = lib.tainted_locals(fn, seeds)
+    # decision points: switches after the match from which a close is reachable on one side but can be by-passed
+    ret_wo_close = fn.reachable_from([t], avoid=closes)
+    bad = []
+    ndec = 0
+    for b in sorted(region):
+        blk = fn.blocks[b]
+        if blk["k"] != "switch" or b not in ret_wo_close:
+            continue
+        succ = fn.succ(b)
+        reach_close = [s_ for s_ in succ if any(c in fn.reachable_from([s_]) for c in closes)]
+        if not reach_close or len(reach_close) == len(succ) and all(
+                not (set(fn.returns()) & fn.reachable_from([s_], avoid=closes)) for s_ in succ):
+            continue
+        ndec += 1
+        loc = re.match(r"_\d+", blk.get("place", "").strip("(*)"))
+        if not loc or loc.group(0) not in ok_taint:
+            bad.append((b, blk.get("place")))
+    R.inst("C08.e", "set_state_from_continuation / close decided by strong_count only", ndec >= 1 and not bad,
+           "Continuation::set_state_from_continuation skips closing the invoked continuation's mark depending on something "
+           "other than its strong count (switch on %s): the frame carrying the mark is dropped, so whenever that other "
+           "condition is false while the continuation is still held elsewhere (e.g. a second continuation captured inside "
+           "the first one's extent keeps a copy of the frame, raising the weak count), the holder keeps an open mark with "
+           "no frame and the next invocation panics 'Failed to find an open continuation on the stack'" % (
+               ", ".join("%s" % p for _, p in bad) or "nothing"), fn.loc(), sample={"decision_switches": ndec})
+
+
+PARAMS_SCM = "crates/steel-core/src/scheme/modules/parameters.scm"
+
+
+def _idx(order, pred):
+    return [i for i, c in enumerate(order) if pred(c)]
+
+
+def wind_rules(F, R):
+    """dynamic-wind / do-wind / the call/cc wrapper are Scheme library code (parameters.scm, compiled into the binary).
+    Structural rules over their syntax tree: the order of effects inside each body."""
+    R.rule("C08.w", "parameters.scm, dynamic-wind protocol (syntax-tree rule over the Scheme library source): (1) dynamic-wind "
+                    "calls `in`, then pushes (in . out) on the winders list, and on both the normal and the error exit pops "
+                    "the winders list before calling `out` (once per path); (2) do-wind leaves extents innermost-first — per "
+                    "element: publish the shortened winders list, call the element's after-thunk (cdr), then continue — and "
+                    "enters extents outermost-first — per element: recurse on the rest first, call the before-thunk (car), "
+                    "then publish the list up to this element; the accessors agree with the (in . out) layout; (3) the "
+                    "call/cc wrapper reads the winders list at capture time and, when invoked, calls do-wind with it "
+                    "before resuming the raw continuation")
+    forms = sexp.load(factsmod.REPO, PARAMS_SCM)
+    defs = sexp.definitions(forms)
+    for need in ("dynamic-wind", "do-wind", "call/cc", "winders"):
+        if need not in defs:
+            raise CheckError("anchor lost: %s not defined in %s" % (need, PARAMS_SCM))
+    where = lambda x: "%s:%s" % (PARAMS_SCM, getattr(x, "line", 0))
+
+    def is_setw(c):
+        return sexp.is_form(c, "set-tls!") and len(c) == 3 and c[1] == "winders"
+
+    def is_getw(c):
+        return sexp.is_form(c, "get-tls") and len(c) == 2 and c[1] == "winders"
+
+    # ---- (1) dynamic-wind
+    dw = defs["dynamic-wind"]
+    body = sexp.lambda_body(dw)
+    if body is None or not isinstance(dw[1], list) or len(dw[1]) != 3:
+        raise CheckError("anchor lost: dynamic-wind is not (lambda (in body out) ...)")
+    p_in, p_body, p_out = [str(x) for x in dw[1]]
+    order = sexp.seq_order(body)
+    call_in = _idx(order, lambda c: len(c) == 1 and c[0] == p_in)
+    call_out = _idx(order, lambda c: len(c) == 1 and c[0] == p_out)
+    push = _idx(order, lambda c: is_setw(c) and sexp.is_form(c[2], "cons"))
+    pop = _idx(order, lambda c: is_setw(c) and sexp.is_form(c[2], "cdr") and is_getw(c[2][1]))
+    protected = [c for c in order if any(sexp.lambda_body(a) is not None and
+                                          any(len(x) == 1 and x[0] == p_body for x in sexp.walk(a)) for a in c[1:]
+                                          if isinstance(a, list))]
+    ok = bool(call_in) and bool(push) and call_in[0] < push[0]
+    R.inst("C08.w", "dynamic-wind / `in` runs before the extent is pushed", ok,
+           "dynamic-wind no longer calls its before-thunk and then pushes the extent on the winders list (in that order): "
+           "an escape from inside `in` would run `out` for an extent that was never entered", where(dw), sample=True)
+    lay = False
+    if push:
+        v = order[push[0]][2]
+        lay = (len(v) == 3 and sexp.is_form(v[1], "cons") and len(v[1]) == 3 and v[1][1] == p_in and v[1][2] == p_out
+               and is_getw(v[2]))
+    R.inst("C08.w", "dynamic-wind / pushes (in . out) on top of the current winders", lay,
+           "dynamic-wind does not push (cons in out) onto (get-tls winders): do-wind takes the before-thunk from the car "
+           "and the after-thunk from the cdr of each entry, so re-entry would run the wrong thunk", where(dw), sample=True)
+    ok = bool(protected) and bool(pop) and bool(call_out) and len(call_out) == 1 and len(pop) == 1 and \
+        order.index(protected[0]) < pop[0] < call_out[0]
+    R.inst("C08.w", "dynamic-wind / normal exit: body, then pop, then `out` once", ok,
+           "dynamic-wind's normal exit no longer runs the body under the handler, pops the winders list and then calls "
+           "`out` exactly once: `out` would run with the extent still registered (an escape from inside `out` runs it "
+           "again) or not at all", where(dw), sample={"pops": len(pop), "out_calls": len(call_out)})
+    hok = False
+    for c in protected:
+        for a in c[1:]:
+            lb = sexp.lambda_body(a) if isinstance(a, list) else None
+            if lb is None or any(len(x) == 1 and x[0] == p_body for x in sexp.walk(a)):
+                continue
+            ho = sexp.seq_order(lb)
+            hpop = _idx(ho, lambda c_: is_setw(c_) and sexp.is_form(c_[2], "cdr"))
+            hout = _idx(ho, lambda c_: len(c_) == 1 and c_[0] == p_out)
+            hraise = _idx(ho, lambda c_: isinstance(c_[0], str) and c_[0].startswith("raise"))
+            hok = bool(hpop) and len(hout) == 1 and bool(hraise) and hpop[0] < hout[0] < hraise[0]
+    R.inst("C08.w", "dynamic-wind / error exit: pop, then `out` once, then re-raise", hok,
+           "dynamic-wind's exception handler no longer pops the winders list, calls `out` once and re-raises (in that "
+           "order): an error crossing the extent skips the after-thunk or leaves the extent registered", where(dw), sample=True)
+
+    # ---- (2) do-wind
+    do = defs["do-wind"]
+    dbody = sexp.lambda_body(do)
+    if dbody is None or len(do[1]) != 1:
+        raise CheckError("anchor lost: do-wind is not (lambda (new) ...)")
+    p_new = str(do[1][0])
+    loops = list(sexp.named_lets(do))
+    kinds = {}
+    for name, binds, lbody, form in loops:
+        if len(binds) != 1 or not isinstance(binds[0], list):
+            continue
+        var = str(binds[0][0])
+        init = binds[0][1]
+        lo = sexp.seq_order(lbody)
+        rec = _idx(lo, lambda c: c[0] == name and len(c) == 2 and sexp.is_form(c[1], "cdr") and c[1][1] == var)
+        thunk = lambda acc: _idx(lo, lambda c: len(c) == 1 and sexp.is_form(c[0], acc) and sexp.is_form(c[0][1], "car")
+                                 and c[0][1][1] == var)
+        before, after = thunk("car"), thunk("cdr")
+        setw = _idx(lo, is_setw)
+        kinds.setdefault("after" if after else "before" if before else "?", []).append(
+            dict(name=name, var=var, init=init, order=lo, rec=rec, before=before, after=after, setw=setw, form=form))
+    a = kinds.get("after", [])
+    b = kinds.get("before", [])
+    if len(a) != 1 or len(b) != 1:
+        R.inst("C08.w", "do-wind / one unwinding loop and one rewinding loop", False,
+               "do-wind no longer consists of one loop calling the after-thunks ((cdr (car ls))) and one loop calling the "
+               "before-thunks ((car (car ls))) of winders entries (found %d / %d): leaving or re-entering nested "
+               "dynamic-wind extents through a continuation does not run each thunk once" % (len(a), len(b)), where(do))
+        return
+    a, b = a[0], b[0]
+    R.inst("C08.w", "do-wind / one unwinding loop and one rewinding loop", True, sample=True)
+    ok = bool(a["setw"]) and bool(a["rec"]) and a["setw"][0] < a["after"][0] < a["rec"][0] and len(a["after"]) == 1 and \
+        sexp.is_form(a["order"][a["setw"][0]][2], "cdr") and a["order"][a["setw"][0]][2][1] == a["var"] and is_getw(a["init"])
+    R.inst("C08.w", "do-wind / unwinding: shorten winders, run after-thunk, then go outward; starts at the current winders", ok,
+           "do-wind's unwinding loop does not, per extent, first publish the winders list without it, then call its "
+           "after-thunk once, then continue with the enclosing extents, starting from (get-tls winders): after-thunks "
+           "run in the wrong order, twice, or see a winders list that still contains their own extent",
+           where(a["form"]), sample=True)
+    ok = bool(b["setw"]) and bool(b["rec"]) and b["rec"][0] < b["before"][0] < b["setw"][0] and len(b["before"]) == 1 and \
+        b["order"][b["setw"][0]][2] == b["var"] and b["init"] == p_new
+    R.inst("C08.w", "do-wind / rewinding: outermost first, run before-thunk, then publish the list up to it; starts at the target", ok,
+           "do-wind's rewinding loop does not, per extent, first re-enter the enclosing extents, then call its "
+           "before-thunk once, then publish the winders list ending at it, starting from the target list: on re-entry "
+           "of nested dynamic-winds the before-thunks run innermost-first, or a thunk that escapes sees a winders list "
+           "that does not match the extents actually entered", where(b["form"]), sample=True)
+    do_order = [f for f in sexp.walk(do) if f is a["form"] or f is b["form"]]
+    R.inst("C08.w", "do-wind / unwinds before it rewinds", do_order and do_order[0] is a["form"],
+           "do-wind runs the before-thunks of the target before the after-thunks of the extents being left", where(do))
+    tails = [bd for f in sexp.walk(do) if sexp.is_form(f, "let") and isinstance(f[1], list) for bd in f[1]
+             if isinstance(bd, list) and len(bd) == 2 and sexp.is_form(bd[1], "common-tail")]
+    ok = bool(tails) and set(map(sexp.show, tails[0][1][1:])) == {p_new, "(get-tls winders)"}
+    R.inst("C08.w", "do-wind / stops at the common tail of target and current winders", ok,
+           "do-wind no longer computes the common tail of the target list and the current winders list: thunks of "
+           "extents shared by both are run although control never leaves them", where(do), sample=True)
+
+    # ---- (3) call/cc wrapper
+    cc = defs["call/cc"]
+    found = False
+    good = False
+    for f in sexp.walk(cc):
+        if sexp.is_form(f, "let") and isinstance(f[1], list):
+            saves = [str(bd[0]) for bd in f[1] if isinstance(bd, list) and len(bd) == 2 and is_getw(bd[1])]
+            for sv in saves:
+                for lam in sexp.walk(f):
+                    lb = sexp.lambda_body(lam)
+                    if lb is None or not isinstance(lam[1], list) or len(lam[1]) != 1:
+                        continue
+                    lo = sexp.seq_order(lb)
+                    dwc = _idx(lo, lambda c: c[0] == "do-wind" and len(c) == 2 and c[1] == sv)
+                    res = _idx(lo, lambda c: len(c) == 2 and c[1] == lam[1][0] and c[0] != "do-wind" and isinstance(c[0], str))
+                    if dwc:
+                        found = True
+                        good = bool(res) and dwc[0] < res[-1]
+    R.inst("C08.w", "call/cc wrapper / winders captured at capture time, do-wind before resuming", found and good,
+           "the call/cc wrapper no longer saves (get-tls winders) when the continuation is captured and calls (do-wind save) "
+           "before invoking the raw continuation: escaping from or re-entering a dynamic-wind extent through a "
+           "continuation runs no thunks", where(cc), sample=True)
+    R.floor("C08.w", "dynamic-wind protocol instances", 9, 9)
